@@ -180,6 +180,7 @@ impl QuicFrameWriter {
 impl FrameWriter for QuicFrameWriter {
     async fn write(&mut self, mut frame: Frame) -> IoResult<usize> {
         frame.session_id = self.session_id;
+        frame.check_addr()?;
         tracing::trace!(
             "quic send_datagram: sid={} len={}",
             frame.session_id,
